@@ -49,7 +49,7 @@
 (*   has, so those of earlier versions of the text linger.                                   *)
 EXTENDS Naturals, Sequences, FiniteSets, TLC
 
-CONSTANTS Urls, Texts, Cfgs, MaxMsgs, MaxInFlight, VersionGuard, RefreshFromMemory, ConfigRebuilds, ForgetIdentRecord, IdentsAccumulate, RebuildOnlyIfChanged, FirstOfBatch, PullOnNull
+CONSTANTS Urls, Texts, Cfgs, MaxMsgs, MaxInFlight, VersionGuard, RefreshFromMemory, ConfigRebuilds, ForgetIdentRecord, IdentsAccumulate, RebuildOnlyIfChanged, FirstOfBatch, PullOnNull, SaveReadsDisk, TamperAllowed
 
 VARIABLES clientText,   \* newest text the client sent per url ("none": not open)
           docText,      \* server's document state per url ("none": no entry); with the version it came from
@@ -99,6 +99,10 @@ SendChangeBatch(u, t1, t2) == clientText[u] # "none" /\ t1 # t2
 \* the editor saves its buffer, then notifies
 SendSave(u) == clientText[u] # "none" /\ Start([kind |-> "save", c |-> C0, changed |-> FALSE, todo |-> <<>>, u |-> u, t |-> "disk", ver |-> sent + 1, pc |-> "read"])
                /\ disk' = [disk EXCEPT ![u] = clientText[u]] /\ UNCHANGED <<clientText, docText, published, cfgvars>>
+\* the file behind an open document comes to differ from the editor's buffer (a byte order mark written by the editor,
+\* another program writing to it): only in configurations that allow it
+Tamper(u, t) == TamperAllowed /\ clientText[u] # "none" /\ disk[u] # "none" /\ t # disk[u] /\ sent < MaxMsgs /\ sent' = sent + 1
+                /\ disk' = [disk EXCEPT ![u] = t] /\ UNCHANGED <<clientText, docText, published, hs, overlapped, cfgvars>>
 \* an add-to-file-dictionary command: the document is re-processed.  (An addition to the USER dictionary re-processes
 \* every open document since 0a59ac0; in this module it overlaps with every document the way a
 \* configuration change does - the dictionary itself is state of UserDict.tla.)
@@ -124,7 +128,8 @@ Advance(i, pc) == hs' = [hs EXCEPT ![i].pc = pc]
 StepRead(i) ==
   /\ hs[i].pc = "read"
   /\ LET h == hs[i]
-         fromDisk == h.kind = "save" \/ ~RefreshFromMemory \/ docText[h.u].t = "none"
+         \* (SaveReadsDisk = TRUE is the code before its repair: didSave took the file's contents for the document)
+         fromDisk == (h.kind = "save" /\ SaveReadsDisk) \/ ~RefreshFromMemory \/ docText[h.u].t = "none"
          t == IF fromDisk THEN disk[h.u] ELSE docText[h.u].t
      IN hs' = [hs EXCEPT ![i].pc = (IF t = "none" THEN "pub" ELSE "cfg"), ![i].t = t]
   /\ UNCHANGED <<clientText, docText, published, disk, sent, overlapped, cfgvars>>
@@ -199,6 +204,7 @@ LNext == \/ \E u \in Urls, t \in Texts : SendOpen(u, t) \/ SendChange(u, t)
          \/ \E u \in Urls : SendClose(u) \/ SendSave(u) \/ SendRefresh(u)
          \/ \E c \in Cfgs : SendConfig(c) \/ ChangeSilently(c)
          \/ SendConfigNull
+         \/ \E u \in Urls, t \in Texts : Tamper(u, t)
          \/ \E i \in DOMAIN hs : StepRead(i) \/ StepCfg(i) \/ StepLoad(i) \/ StepSet(i) \/ StepPub(i) \/ StepClose(i)
                                   \/ StepStore(i) \/ StepRebuild(i) \/ StepEach(i)
 
